@@ -82,10 +82,14 @@ def check(text, specs, protected_extra=0):
     s1 = LazyList(iter(list(SENT_VALUES[1])))
     s2 = SENT_VALUES[2] + 0  # a distinct int object
     sent = [s0, s1, s2]
+    # 0, 2 or 5 further protected entries, so that behaviour depending on the depth of the stack is exercised
+    pad = (0, 2, 5)[(len(text) + len(repr(specs))) % 3]
+    sent += [[900 + i] for i in range(pad)]
     try:
         args = [elemargs.build(s, ctx) for s in specs]
     except Exception as e:  # noqa: BLE001
         return ("discard", f"building arguments: {e!r}")
+    nsent = len(sent)
     stack = sent + args
     ctx.stacks.append(stack)
     r = harness.exec_py(_code(text), stack, ctx, budget=1_500_000, wall=15)
@@ -94,18 +98,20 @@ def check(text, specs, protected_extra=0):
     what = None
     if r.ns.get("stack") is not stack:
         what = "the stack variable was rebound to another list"
-    elif len(stack) < 3:
-        what = f"only {len(stack)} entries are left: a sentinel was consumed"
+    elif len(stack) < nsent:
+        what = f"only {len(stack)} of the {nsent} entries below the arguments are left: a protected entry was consumed"
     else:
-        for i in range(3):
+        for i in range(nsent):
             if stack[i] is not sent[i]:
-                what = f"entry {i} below the arguments was replaced by {str(stack[i])[:60]!r}"
+                what = f"entry {i} (of {nsent}) below the arguments was replaced by {str(stack[i])[:60]!r}"
                 break
+        if what is None and any(x != [900 + i] for i, x in enumerate(sent[3:])):
+            what = "a padding entry below the arguments changed its value"
     if what is None:
         for i in range(protected_extra):
-            if len(stack) <= 3 + i or stack[3 + i] is not args[i]:
+            if len(stack) <= nsent + i or stack[nsent + i] is not args[i]:
                 what = (f"argument {i}, which the construct only reads (its first operand works on a copy of the stack), "
-                        f"was removed or moved: the entry above the sentinels is now {str(stack[3 + i])[:60] if len(stack) > 3 + i else 'missing'!r}")
+                        f"was removed or moved: the entry above the sentinels is now {str(stack[nsent + i])[:60] if len(stack) > nsent + i else 'missing'!r}")
                 break
     if what is None:
         try:
